@@ -20,7 +20,7 @@ func TestVerifC10(t *testing.T) {
 	if ev.Thorough() {
 		depth = 8
 	}
-	r.Rule(fmt.Sprintf("breadth-first search to depth %d (from the empty cluster and from roots with bound pods) over {podCreate on node-1 / on node-2 after a removal (same name, new UID), podExit, podRemove, reconcilePod(i), reconcilePodENI(i) — the two REAL controllers observe in any order —, gcCR, gcENI, clock steps around 1 min / TTL / 10 min, one-shot faults on Create/Attach/Detach/Delete and on the PodENI create call} x trunk on/off x pod kinds {elastic, fixed, two interfaces}; oracles on every transition: (phase, phase') in the documented relation, a record disappears only from Deleting, no Detach/Delete of an interface whose record carries the UID of a pod that is still running; closure from every state: deleted elastic pod => record and interface gone, no controller-created interface without a record after the leak collector", depth))
+	r.Rule(fmt.Sprintf("breadth-first search to depth %d (from the empty cluster and from roots with bound pods) over {podCreate on node-1 / on node-2 after a removal (same name, new UID), podExit, podRemove, reconcilePod(i), reconcilePodENI(i) — the two REAL controllers observe in any order —, gcCR, gcENI, clock steps around 1 min / TTL / 10 min, one-shot faults on Create/Attach/Detach/Delete, on the PodENI create call and on the next read of a Pod object} x trunk on/off x pod kinds {elastic, fixed, two interfaces}; oracles on every transition: (phase, phase') in the documented relation, a record disappears only from Deleting, no Detach/Delete of an interface whose record carries the UID of a pod that is still running; closure from every state: deleted elastic pod => record and interface gone, no controller-created interface without a record after the leak collector", depth))
 	var cfgs []pwCfg
 	for _, trunk := range []bool{false, true} {
 		cfgs = append(cfgs, pwCfg{Trunk: trunk, Kinds: []string{"elastic"}, Faults: true}, pwCfg{Trunk: trunk, Kinds: []string{"two"}, Faults: true}, pwCfg{Trunk: trunk, Kinds: []string{"elastic", "fixed-ttl"}})
